@@ -272,7 +272,8 @@ def selftest():
     ok = ok and good
     v = vlib.Verdict("C10-selftest"); v.findings = []
     leg_r(wd, "quick", binary, v, stub="rejecting-client", only=lambda c: c["variant"] == 0 and not c["faults"])
-    good = len([m for m in v.violations if m["sig"].endswith("honest-failed")]) == 15   # all but the unservable input classes
+    failed = [m["sig"].split(":")[1] for m in v.violations if m["sig"].endswith("honest-failed")]
+    good = len(set(failed)) == 15 and len(failed) == 25   # all but the unservable input classes; 10 of them in both key regimes
     log("selftest 2b (client that rejects everything fails HonestSucceeds for all 15 RPCs): %s" % ("ok" if good else "FAILED"))
     ok = ok and good
     # corrupted trace
